@@ -23,9 +23,9 @@ Lemma live_loop_behind pfx p body B : forall L s it fuel n,
   live_loop pfx body s fuel it (res_of L) n = (fold_body pfx body L s, true).
 Proof.
   induction L as [|e L' IH]; intros s it fuel n Hs T Hf Hn HL Hb.
-  - reflexivity.
-  - unfold res_of; cbn [nilb live_loop]. simpl in T. destruct T as (Ek & Ev & Hnx).
-    destruct n as [|n']; [simpl in Hn; lia|].
+  - destruct n; reflexivity.
+  - unfold res_of; cbn [nilb]. simpl in T. destruct T as (Ek & Ev & Hnx).
+    destruct n as [|n']; [simpl in Hn; lia|]. cbn [live_loop].
     destruct (HL e (or_introl eq_refl)) as [We Pe].
     pose proof (Hb e (or_introl eq_refl)) as Hw.
     unfold cache_iter_key. rewrite Ek, Ev.
